@@ -36,6 +36,13 @@ fn float_patterns(r: &mut Rng, w: u32, ebits: u32, mbits: u32, thorough: bool) -
     for k in [15i64, 16, 31, 32, 62, 63, 64, 65, 126, 127, 128, 129] {
         exps.push(bias + k);
     }
+    // fractions: 2^-k around the same widths and around the mantissa length (shift amounts computed from the
+    // exponent go negative there); a random half in the quick tier
+    for k in [8i64, 9, 10, 16, 17, 23, 24, 25, 31, 32, 33, 52, 53, 54, 63, 64, 65, 127] {
+        if thorough || r.below(2) == 0 {
+            exps.push(bias - k);
+        }
+    }
     if thorough {
         for e in 0..=emax {
             if e % 3 == 0 || (e - bias).abs() < 2 * w + 8 {
